@@ -27,19 +27,19 @@
 (* {"e":"Crash"} lines (the implementation crashed; the harness went on      *)
 (* with the next behaviour) are counted, nothing else.                       *)
 (***************************************************************************)
-EXTENDS Server, Integers, Json, CSV, IOUtils
+EXTENDS Server, Integers, Json, CSV, IOUtils   \* (FiniteSets comes with Server)
 
 TraceLog == ndJsonDeserialize(IOEnv.QXV_TRACE)
 
-VARIABLES l, cid, mon, viol, ndiv, divs, dflag, ncases, ncrash
+VARIABLES l, cid, mon, nviol, ndiv, divs, dflag, ncases, ncrash
 
-tvars == <<vars, l, cid, mon, viol, ndiv, divs, dflag, ncases, ncrash>>
+tvars == <<vars, l, cid, mon, nviol, ndiv, divs, dflag, ncases, ncrash>>
 
 Mon0 == [appr |-> {}, res |-> ""]
 
 TInit ==
     /\ Init
-    /\ l = 1 /\ cid = "" /\ mon = Mon0 /\ viol = {} /\ ndiv = 0 /\ divs = <<>> /\ dflag = FALSE
+    /\ l = 1 /\ cid = "" /\ mon = Mon0 /\ nviol = 0 /\ ndiv = 0 /\ divs = <<>> /\ dflag = FALSE
     /\ ncases = 0 /\ ncrash = 0
 
 ModelAct(ev) ==
@@ -101,18 +101,24 @@ Who(p, n, ev) ==
 ResetStep(ev) ==
     /\ Reinit
     /\ cid' = ev.case /\ mon' = Mon0 /\ dflag' = FALSE /\ ncases' = ncases + 1
-    /\ UNCHANGED <<viol, ndiv, divs, ncrash>>
+    /\ UNCHANGED <<nviol, ndiv, divs, ncrash>>
 
 CrashStep(ev) ==
     /\ ncrash' = ncrash + 1
-    /\ UNCHANGED <<vars, cid, mon, viol, ndiv, divs, dflag, ncases>>
+    /\ UNCHANGED <<vars, cid, mon, nviol, ndiv, divs, dflag, ncases>>
 
 OpStep(ev) ==
     /\ \/ ModelAct(ev)
        \/ (~ENABLED ModelAct(ev)) /\ UNCHANGED vars
     /\ mon' = MonNext(mon, ev)
-    /\ viol' = viol \cup {[case |-> cid, line |-> l, prop |-> p, e |-> ev.e, who |-> Who(p, MonNext(mon, ev), ev)] :
-                                p \in Failed(MonNext(mon, ev), ev)}
+    \* failed predicates are written out at once (IOEnv.QXV_VIOL, one JSON line per failing step):
+    \* accumulating them in the state would make every later state carry them
+    /\ LET n == MonNext(mon, ev)
+           F == Failed(n, ev)
+       IN /\ nviol' = nviol + Cardinality(F)
+          /\ \/ F = {}
+             \/ CSVWrite("%1$s", <<ToJson([case |-> cid, line |-> l, e |-> ev.e,
+                                           failed |-> {[prop |-> p, who |-> Who(p, n, ev)] : p \in F}])>>, IOEnv.QXV_VIOL)
     /\ LET d == Proj' # Obs(ev) IN
         /\ dflag' = (dflag \/ d)
         /\ ndiv' = IF d /\ ~dflag THEN ndiv + 1 ELSE ndiv
@@ -130,6 +136,6 @@ TNext ==
 
 TSpec == TInit /\ [][TNext]_tvars
 
-Summary == [cases |-> ncases, lines |-> l - 1, viol |-> viol, ndiv |-> ndiv, divs |-> divs, ncrash |-> ncrash]
+Summary == [cases |-> ncases, lines |-> l - 1, nviol |-> nviol, ndiv |-> ndiv, divs |-> divs, ncrash |-> ncrash]
 Done == l <= Len(TraceLog) \/ CSVWrite("%1$s", <<ToJson(Summary)>>, IOEnv.QXV_SUMMARY)
 =============================================================================
